@@ -122,12 +122,11 @@ def mcb_weight(n, edges):
 @st.composite
 def graphs(draw):
     big = draw(st.integers(0, 6)) == 0
-    if big:   # 33..70 vertices, sparse: a cycle through all vertices in generated order plus a few chords (few simple cycles)
-        n = draw(st.integers(33, 70))
-        order = draw(st.permutations(list(range(n))))
-        chosen = [(order[i], order[(i + 1) % n]) for i in range(n)]
+    if big:   # 33..70 vertices, sparse: a random recursive tree plus 1-4 extra edges (few simple cycles, varied neighbourhoods)
+        n = draw(st.sampled_from(list(range(33, 71))))
+        chosen = [(i, draw(st.integers(0, i - 1))) for i in range(1, n)]
         have = set((min(a, b), max(a, b)) for a, b in chosen)
-        for _ in range(draw(st.integers(0, 3))):
+        for _ in range(draw(st.integers(1, 4))):
             a = draw(st.integers(0, n - 1))
             b = draw(st.integers(0, n - 1))
             if a != b and (min(a, b), max(a, b)) not in have:
